@@ -334,9 +334,36 @@ class Executor:
             G = _types.new_class('GenC10', (pane.PaneBase, t.Generic[T]), {}, lambda ns: ns.update({'__annotations__': {'x': T}}))
             Executor._GEN.extend([G, T])
         G = Executor._GEN[0]
+        # an instance and a holder type made *before* the subscriptions: the parametrisation they refer to must stay the one
+        # G[int] denotes afterwards (a value of G[int] is a value of G[int], however many other parametrisations came in between)
+        import types as _types
+        before = G[int](x=1)
+        Holder = _types.new_class('HoldC10', (pane.PaneBase,), {}, lambda ns: ns.update({'__annotations__': {'item': G[int]}}))
         for i in range(n):
             G[t.Literal[i]]        # n distinct subscriptions roll the LRU cache of generic subclasses
         self.ctx.evaluated()
+        (k0, r0) = outcome(lambda: pane.from_data({'item': G[int](x=2)}, Holder))
+        (k0b, r0b) = outcome(lambda: pane.from_data({'item': before}, Holder))
+        if k0 != 'ok' or k0b != 'ok' or not isinstance(before, G[int]):
+            self.ctx.fail('history-independent', 'generic-subscription-identity',
+                          f"after {n} other subscriptions, a field of type G[int] (class made earlier) given a G[int] instance: new instance {k0} {short(r0, 80)}, "
+                          f"instance made earlier {k0b} {short(r0b, 80)}; isinstance(earlier, G[int]) = {isinstance(before, G[int])}")
+            return
+        # the order of union members is part of the parameter: G[Union[int, float]] and G[Union[float, int]] are different types
+        for (first, second) in (((int, float), (float, int)), ((float, int), (int, float))):
+            if n % 2 == (0 if first[0] is int else 1):
+                continue
+            A = G[t.Union[first]]     # type: ignore
+            B = G[t.Union[second]]    # type: ignore
+            for (Ty, order) in ((A, first), (B, second)):
+                (k, r) = outcome(lambda: pane.from_data({'x': 1}, Ty))
+                want = order[0](1)
+                if k != 'ok' or type(r.x) is not type(want):
+                    self.ctx.fail('history-independent', 'generic-subscription-union-order',
+                                  f"G[Union[{first[0].__name__}, {first[1].__name__}]] subscripted first, then G[Union[{second[0].__name__}, {second[1].__name__}]]: "
+                                  f"from_data({{'x': 1}}, G[Union[{order[0].__name__}, {order[1].__name__}]]) gave {k} {short(getattr(r, 'x', r), 40)!s}, "
+                                  f"the left-most member {order[0].__name__} gives {want!r}")
+                    return
         for (arg, good, bad) in ((int, 5, 's'), (str, 's', 5), (t.Literal[0], 0, 1)):
             (k1, r1) = outcome(lambda: pane.from_data({'x': good}, G[arg]))
             (k2, _) = outcome(lambda: pane.from_data({'x': bad}, G[arg]))
@@ -459,7 +486,7 @@ def make_machine(step_budget: int, big: bool) -> t.Any:
             def subscript(self, n: int) -> None:
                 self.ex.apply(['subscript', n])
         else:
-            @rule(n=st.sampled_from([3, 20]))
+            @rule(n=st.sampled_from([3, 20, 300]))
             def subscript(self, n: int) -> None:
                 self.ex.apply(['subscript', n])
 
